@@ -15,7 +15,7 @@ else
   run="bash $out/demo.sh $*"
 fi
 ( cd $out && timeout 300 $run >/dev/null 2>&1 ); a=$?
-git stash -q && meson compile -C _build >/dev/null 2>&1
+git diff > $out/.cur.diff && git apply -R $out/.cur.diff && meson compile -C _build >/dev/null 2>&1
 ( cd $out && timeout 300 $run >/dev/null 2>&1 ); b=$?
-git stash pop -q && meson compile -C _build >/dev/null 2>&1
+git apply $out/.cur.diff && meson compile -C _build >/dev/null 2>&1
 echo "$id demo exit with change: $a   without change: $b"
